@@ -20,3 +20,97 @@ package common
 //@   noinline *
 //@   ensures detector-armed: err == nil && translatorData.PoisonRecordCallbacks != nil && ret(PoisonRecordCallbackStorage.HasCallbacks)[0] ==> called(EnvelopeDetector.AddCallback)
 //@   at call EnvelopeDetector.AddCallback : assert typeis(arg[0], crypto.PoisonRecordDetector) && recv == ret(crypto.NewEnvelopeDetector)[0]
+
+// ---- the other translator operations (C01, C02, C03, C09, C10): every operation works for the client id of the request
+// (the one the TLS wrapper has already replaced by the connection's identity) - keys are looked up, contexts are built and
+// hashes are keyed for that id and no other -, hands the caller's bytes to the envelope handler of the operation's kind,
+// and returns exactly what the handler returned; a value whose search hash does not match is never returned.
+//@ func (service *TranslatorService) Encrypt(ctx context.Context, data []byte, clientID []byte, additionalContext []byte) (out []byte, err error)
+//@   props C01 C02
+//@   noinline *
+//@   at call crypto.GetHandlerByEnvelopeID : assert arg[0] == crypto.AcraStructEnvelopeID
+//@   at call RegistryHandler.EncryptWithHandler : assert arg[0] == ret(crypto.GetHandlerByEnvelopeID)[0] && ret(crypto.GetHandlerByEnvelopeID)[1] == nil && sameslice(arg[1], clientID) && sameslice(arg[2], data) && len(clientID) != 0
+//@   ensures result-is-the-handlers: err == nil ==> sameslice(out, ret(RegistryHandler.EncryptWithHandler)[0]) && ret(RegistryHandler.EncryptWithHandler)[1] == nil
+//@   ensures nothing-on-error: err != nil ==> out == nil
+
+//@ func (service *TranslatorService) EncryptSym(ctx context.Context, data []byte, clientID []byte, additionalContext []byte) (out []byte, err error)
+//@   props C01 C02
+//@   noinline *
+//@   at call crypto.GetHandlerByEnvelopeID : assert arg[0] == crypto.AcraBlockEnvelopeID
+//@   at call RegistryHandler.EncryptWithHandler : assert arg[0] == ret(crypto.GetHandlerByEnvelopeID)[0] && ret(crypto.GetHandlerByEnvelopeID)[1] == nil && sameslice(arg[1], clientID) && sameslice(arg[2], data) && clientID != nil
+//@   ensures result-is-the-handlers: err == nil ==> sameslice(out, ret(RegistryHandler.EncryptWithHandler)[0]) && ret(RegistryHandler.EncryptWithHandler)[1] == nil
+//@   ensures nothing-on-error: err != nil ==> out == nil
+
+//@ func (service *TranslatorService) DecryptSym(ctx context.Context, acraBlock []byte, clientID []byte, additionalContext []byte) (out []byte, err error)
+//@   props C01 C02 C03 C15
+//@   noinline *
+//@   at call base.WithClientID : assert sameslice(arg[0], clientID)
+//@   at call crypto.GetHandlerByEnvelopeID : assert arg[0] == crypto.AcraBlockEnvelopeID
+//@   at call RegistryHandler.DecryptWithHandler : assert arg[0] == ret(crypto.GetHandlerByEnvelopeID)[0] && sameslice(arg[1], acraBlock) && arg[2].Keystore == service.data.Keystorage && arg[2].Context == ret(base.SetAccessContextToContext)[0]
+//@   at call base.SetAccessContextToContext : assert arg[0] == ctx && arg[1] == ret(base.NewAccessContext)[0]
+//@   at call EnvelopeDetector.OnColumn : assert recv == service.poisonDetector && sameslice(arg[1], acraBlock)
+//@   ensures failed-decrypt-checked-for-poison: called(RegistryHandler.DecryptWithHandler) && ret(RegistryHandler.DecryptWithHandler)[1] != nil ==> called(EnvelopeDetector.OnColumn) && err != nil && (out == nil || sameslice(out, acraBlock))
+//@   ensures success-is-the-handlers-output: err == nil ==> sameslice(out, ret(RegistryHandler.DecryptWithHandler)[0]) && ret(RegistryHandler.DecryptWithHandler)[1] == nil
+
+//@ func (service *TranslatorService) EncryptSearchable(ctx context.Context, data []byte, clientID []byte, additionalContext []byte) (out SearchableResponse, err error)
+//@   props C01 C02 C09
+//@   noinline *
+//@   at call TranslationKeyStore.GetHMACSecretKey : assert recv == service.data.Keystorage && sameslice(arg[0], clientID)
+//@   at call hmac.GenerateHMAC : assert index-over-the-plaintext-with-the-clients-key: sameslice(arg[0], ret(TranslationKeyStore.GetHMACSecretKey)[0]) && ret(TranslationKeyStore.GetHMACSecretKey)[1] == nil && sameslice(arg[1], data)
+//@   at call crypto.GetHandlerByEnvelopeID : assert arg[0] == crypto.AcraStructEnvelopeID
+//@   at call RegistryHandler.EncryptWithHandler : assert arg[0] == ret(crypto.GetHandlerByEnvelopeID)[0] && sameslice(arg[1], clientID) && sameslice(arg[2], data)
+//@   ensures hash-and-envelope: err == nil ==> sameslice(out.Hash, ret(hmac.GenerateHMAC)[0]) && sameslice(out.EncryptedData, ret(RegistryHandler.EncryptWithHandler)[0]) && ret(RegistryHandler.EncryptWithHandler)[1] == nil
+
+//@ func (service *TranslatorService) EncryptSymSearchable(ctx context.Context, data []byte, clientID []byte, additionalContext []byte) (out SearchableResponse, err error)
+//@   props C01 C02 C09
+//@   noinline *
+//@   at call TranslationKeyStore.GetHMACSecretKey : assert recv == service.data.Keystorage && sameslice(arg[0], clientID)
+//@   at call hmac.GenerateHMAC : assert index-over-the-plaintext-with-the-clients-key: sameslice(arg[0], ret(TranslationKeyStore.GetHMACSecretKey)[0]) && ret(TranslationKeyStore.GetHMACSecretKey)[1] == nil && sameslice(arg[1], data)
+//@   at call crypto.GetHandlerByEnvelopeID : assert arg[0] == crypto.AcraBlockEnvelopeID
+//@   at call RegistryHandler.EncryptWithHandler : assert arg[0] == ret(crypto.GetHandlerByEnvelopeID)[0] && sameslice(arg[1], clientID) && sameslice(arg[2], data)
+//@   ensures hash-and-envelope: err == nil ==> sameslice(out.Hash, ret(hmac.GenerateHMAC)[0]) && sameslice(out.EncryptedData, ret(RegistryHandler.EncryptWithHandler)[0]) && ret(RegistryHandler.EncryptWithHandler)[1] == nil
+
+//@ func (service *TranslatorService) GenerateQueryHash(context context.Context, data []byte, clientID []byte, additionalContext []byte) (out []byte, err error)
+//@   props C02 C09
+//@   noinline *
+//@   at call TranslationKeyStore.GetHMACSecretKey : assert recv == service.data.Keystorage && sameslice(arg[0], clientID)
+//@   at call hmac.GenerateHMAC : assert sameslice(arg[0], ret(TranslationKeyStore.GetHMACSecretKey)[0]) && ret(TranslationKeyStore.GetHMACSecretKey)[1] == nil && sameslice(arg[1], data)
+//@   ensures err == nil ==> sameslice(out, ret(hmac.GenerateHMAC)[0])
+//@   ensures err != nil ==> out == nil
+
+//@ func (service *TranslatorService) DecryptSearchable(ctx context.Context, data []byte, hash []byte, clientID []byte, additionalContext []byte) (out []byte, err error)
+//@   props C01 C02 C03 C09 C15
+//@   noinline *
+//@   at call base.WithClientID : assert sameslice(arg[0], clientID)
+//@   at call crypto.GetHandlerByEnvelopeID : assert arg[0] == crypto.AcraStructEnvelopeID
+//@   at call RegistryHandler.DecryptWithHandler : assert arg[0] == ret(crypto.GetHandlerByEnvelopeID)[0] && sameslice(arg[1], ret(hmac.ExtractHashAndData)[1]) && arg[2].Keystore == service.data.Keystorage && arg[2].Context == ret(base.SetAccessContextToContext)[0]
+//@   at call Hash.IsEqual : assert recv == ret(hmac.ExtractHashAndData)[0] && sameslice(arg[0], ret(RegistryHandler.DecryptWithHandler)[0]) && sameslice(arg[1], clientID) && arg[2] == service.data.Keystorage
+//@   at call EnvelopeDetector.OnColumn : assert recv == service.poisonDetector && sameslice(arg[1], ret(hmac.ExtractHashAndData)[1])
+//@   ensures only-with-a-matching-hash: err == nil ==> called(Hash.IsEqual) && ret(Hash.IsEqual)[0] && sameslice(out, ret(RegistryHandler.DecryptWithHandler)[0]) && ret(RegistryHandler.DecryptWithHandler)[1] == nil
+//@   ensures failed-decrypt-checked-for-poison: called(RegistryHandler.DecryptWithHandler) && ret(RegistryHandler.DecryptWithHandler)[1] != nil ==> called(EnvelopeDetector.OnColumn) && err != nil
+//@   ensures mismatch-gives-nothing: called(Hash.IsEqual) && !ret(Hash.IsEqual)[0] ==> err != nil && out == nil
+
+//@ func (service *TranslatorService) DecryptSymSearchable(ctx context.Context, data []byte, hash []byte, clientID []byte, additionalContext []byte) (out []byte, err error)
+//@   props C01 C02 C03 C09 C15
+//@   noinline *
+//@   at call base.WithClientID : assert sameslice(arg[0], clientID)
+//@   at call crypto.GetHandlerByEnvelopeID : assert arg[0] == crypto.AcraBlockEnvelopeID
+//@   at call RegistryHandler.DecryptWithHandler : assert arg[0] == ret(crypto.GetHandlerByEnvelopeID)[0] && sameslice(arg[1], ret(hmac.ExtractHashAndData)[1]) && arg[2].Keystore == service.data.Keystorage && arg[2].Context == ret(base.SetAccessContextToContext)[0]
+//@   at call Hash.IsEqual : assert recv == ret(hmac.ExtractHashAndData)[0] && sameslice(arg[0], ret(RegistryHandler.DecryptWithHandler)[0]) && sameslice(arg[1], clientID) && arg[2] == service.data.Keystorage
+//@   ensures only-with-a-matching-hash: err == nil ==> called(Hash.IsEqual) && ret(Hash.IsEqual)[0] && sameslice(out, ret(RegistryHandler.DecryptWithHandler)[0]) && ret(RegistryHandler.DecryptWithHandler)[1] == nil
+//@   ensures failed-decrypt-checked-for-poison: called(RegistryHandler.DecryptWithHandler) && ret(RegistryHandler.DecryptWithHandler)[1] != nil ==> called(EnvelopeDetector.OnColumn) && err != nil
+//@   ensures mismatch-gives-nothing: called(Hash.IsEqual) && !ret(Hash.IsEqual)[0] ==> err != nil && out == nil
+
+//@ func (service *TranslatorService) Tokenize(ctx context.Context, data interface{}, dataType tokenCommon.TokenType, clientID []byte, additionalContext []byte) (out interface{}, err error)
+//@   props C02 C10
+//@   noinline *
+//@   at call Pseudoanonymizer.AnonymizeConsistently : assert own-token-context: recv == service.data.Tokenizer && arg[0] == data && sameslice(arg[1].ClientID, clientID) && len(arg[1].AdditionalContext) == 0 && arg[2] == dataType
+//@   ensures err == nil ==> out == ret(Pseudoanonymizer.AnonymizeConsistently)[0] && ret(Pseudoanonymizer.AnonymizeConsistently)[1] == nil
+//@   ensures err != nil ==> out == nil
+
+//@ func (service *TranslatorService) Detokenize(ctx context.Context, data interface{}, dataType tokenCommon.TokenType, clientID []byte, additionalContext []byte) (out interface{}, err error)
+//@   props C02 C10
+//@   noinline *
+//@   at call Pseudoanonymizer.Deanonymize : assert own-token-context: recv == service.data.Tokenizer && arg[0] == data && sameslice(arg[1].ClientID, clientID) && len(arg[1].AdditionalContext) == 0 && arg[2] == dataType
+//@   ensures err == nil ==> out == ret(Pseudoanonymizer.Deanonymize)[0] && ret(Pseudoanonymizer.Deanonymize)[1] == nil
+//@   ensures err != nil ==> out == nil
